@@ -62,19 +62,42 @@ def mutators(ix, R):
     for name, (table, slot, newv) in MUTATORS.items():
         site = OPT + '.' + name
         with R.guard('1.table', 'SIB', site, 'table selection'):
+            # decided on the flow (helpers that are new to the reviewed tree are followed): the one store goes to
+            # <object>.<table>[parameter] with <object> = model if parameter in model.<table'> else observation,
+            # and <table'> must be <table>; the tuple written is built from a read of the same location (5.slot)
             f = ix.func(site)
-            tests, reads, writes = table_attrs(f)
-            used = {a for a, _, _ in tests + reads + writes}
-            sel = [t for t in tests if t[1] == 'self._model']
+            fl = mkflow(ix, site)
+            par = fl.tab.name(f.params()[1])
             why = []
-            if len(sel) != 1:
-                why.append('%d membership tests on the model table' % len(sel))
-            if used != {table}:
-                why.append('membership test on %s, read from %s, written to %s (expected %s throughout)' % (
-                    sorted({a for a, _, _ in tests}), sorted({a for a, _, _ in reads}),
-                    sorted({a for a, _, _ in writes}), table))
-            if not reads or not writes:
-                why.append('table is not both read and written')
+            sts = fl.of('store')
+            norm = lambda x: x.replace('_', '').lower()
+            if len(sts) != 1:
+                why.append('%d stores' % len(sts))
+            else:
+                ta = atom_of(fl, sts[0].target)
+                base = atom_of(fl, ta.args[0]) if ta is not None and ta.head == 'idx' and len(ta.args) == 2 else None
+                if base is None or base.head != 'getattr' or not fl.tab.equal(ta.args[1], par):
+                    why.append('table is not both read and written: stores at %s' % fmt(fl, sts[0].target))
+                else:
+                    written = base.args[1]
+                    ga = atom_of(fl, base.args[0])
+                    if ga is None or ga.head != 'guard':
+                        why.append('object is %s' % fmt(fl, base.args[0]))
+                    else:
+                        c, m, o = ga.args
+                        ca = atom_of(fl, c)
+                        tested = None
+                        if ca is not None and ca.head == 'cmp' and ca.extra == ('In',) and fl.tab.equal(ca.args[0], par):
+                            t_ = fmt(fl, ca.args[1])
+                            if t_.startswith('self._model.'):
+                                tested = t_[len('self._model.'):]
+                        if tested is None:
+                            why.append('%d membership tests on the model table (object chosen by %s)' % (0, fmt(fl, c)))
+                        elif norm(tested) != norm(table) or norm(written) != norm(table):
+                            why.append('membership test on %s, read from / written to %s (expected %s throughout)' % (
+                                tested, written, table))
+                        if fmt(fl, m) != 'self._model' or fmt(fl, o) != 'self._observed':
+                            why.append('objects are %s / %s' % (fmt(fl, m), fmt(fl, o)))
             R.check('1.table', 'SIB', site,
                     'the table used to pick model vs observation is the table that is read and written (%s)' % table,
                     not why, key='; '.join(why), detail='; '.join(why), loc=f.loc())
@@ -119,10 +142,12 @@ def mutators(ix, R):
                     '%s rewrites exactly slot %d (%s) of the tuple and passes the other %d through' % (
                         name, slot, layout[slot], len(layout) - 1),
                     not why, key='; '.join(why), detail='; '.join(why), loc=f.loc(st.node))
-            # 7. unknown name is an error: the read obj.T[parameter] is unconditional
-            rd = [e for e in fl.of('assign') if e.op is None and isinstance(e.node, ast.Assign) and
-                  isinstance(e.node.value, ast.Subscript) and unparse(e.node.value.slice) == ps[1]]
-            uncond = any(not e.guards for e in rd)
+            # 7. unknown name is an error: the tuple that is stored unconditionally is built from
+            # table[parameter] of the selected object, so the lookup (KeyError for an unknown name) always runs
+            passed = va is not None and va.head == 'tuple' and ta is not None and any(
+                k != slot and fl.tab.equal(x, fl.tab.atom('idx', (fl.tab.atom('idx', (ta.args[0], par)), fl.tab.const(k))))
+                for k, x in enumerate(va.args))
+            uncond = passed and not [g for g in st.guards if not validated(g)] and not st.loops
             R.check('7.unknown', 'DOM', site,
                     'an unknown parameter name fails (unconditional table[parameter] lookup raises KeyError)',
                     uncond, key='no unconditional lookup', detail='no unconditional table[parameter] read',
@@ -364,49 +389,77 @@ def compile_fn(ix, R):
         b = {'mode': mode, 'bounds': bounds}
         want = spec(fl, "_guard(mode == 'log', LogUniform(lin_bounds=bounds), Uniform(bounds=bounds))", b)
         want2 = spec(fl, "_guard(mode == 'linear', Uniform(bounds=bounds), LogUniform(lin_bounds=bounds))", b)
-        def is_default(e):
-            for g in e.guards:
-                a = atom_of(fl, g.rf)
-                if a is not None and a.head == 'cmp' and a.extra[0] in ('NotIn', 'In'):
-                    return (a.extra[0] == 'NotIn') == g.positive
-            return False
-        dflt = [e for e in pr if is_default(e)]
-        user = [e for e in pr if e not in dflt]
-        if len(dflt) != 1 or not (fl.tab.equal(dflt[0].args[0], want) or fl.tab.equal(dflt[0].args[0], want2)):
-            why.append('default prior is %s' % [fmt(fl, e.args[0]) for e in dflt])
-        if len(user) != 1:
-            why.append('%d branches append a stored prior' % len(user))
-        else:
-            ua = atom_of(fl, user[0].args[0])
-            if ua is None or ua.head != 'idx' or not fl.tab.equal(ua.args[1], name):
-                why.append('stored prior looked up by %s' % fmt(fl, user[0].args[0]))
-        for e in pr:
-            if lp not in e.loops or not any(fl.tab.equal(x.rf, tofit) and x.positive for x in e.guards):
-                why.append('prior appended outside the fitted branch')
-            if len(e.guards) != 2 or len(e.loops) != 1:
-                why.append('prior appended under %s' % [x.text() for x in e.guards])
-        # the table: the caller's (or a new one), and every default is entered under its name
+        def membership(g):
+            """+1 / -1 when guard g says the name is absent from / present in the prior table, else 0"""
+            a_ = atom_of(fl, g.rf)
+            if a_ is not None and a_.head == 'cmp' and a_.extra[0] in ('NotIn', 'In'):
+                return 1 if (a_.extra[0] == 'NotIn') == g.positive else -1
+            return 0
+
+        def in_fitted_branch(e):
+            return lp in e.loops and len(e.loops) == 1 and any(fl.tab.equal(x.rf, tofit) and x.positive for x in e.guards)
+
+        def others(e):
+            return [x for x in e.guards if not (fl.tab.equal(x.rf, tofit) and x.positive) and not membership(x)]
+        # the table: the caller's (or a new one)
         tblv = [e for e in fl.of('assign') if not e.loops and not e.guards and
                 (fl.tab.equal(e.value, spec(fl, 'pri or {}', pe)) or fl.tab.equal(e.value, spec(fl, 'pri or dict()', pe)))]
         if len(tblv) != 1:
             why.append('the prior table is not `fit_priors or {}`')
+            tbl = None
         else:
             tbl = tblv[0].value
-            ent = [e for e in fl.of('store') if atom_of(fl, e.target) is not None and atom_of(fl, e.target).head == 'idx'
-                   and fl.tab.equal(atom_of(fl, e.target).args[0], tbl)]
-            if len(ent) != 1 or not dflt or not fl.tab.equal(atom_of(fl, ent[0].target).args[1], name) or \
-                    not fl.tab.equal(ent[0].value, dflt[0].args[0]) or \
-                    [(g.node, g.positive) for g in ent[0].guards] != [(g.node, g.positive) for g in dflt[0].guards]:
-                why.append('the default prior is not entered in the table under the parameter name in the same branch')
-            for e in user:
-                ua = atom_of(fl, e.args[0])
-                if ua is not None and ua.head == 'idx' and not fl.tab.equal(ua.args[0], tbl):
-                    why.append('stored prior is read from %s' % fmt(fl, ua.args[0]))
-            for g in (dflt[0].guards if dflt else []):
-                a_ = atom_of(fl, g.rf)
-                if a_ is not None and a_.head == 'cmp' and a_.extra[0] in ('In', 'NotIn') and not (
-                        fl.tab.equal(a_.args[0], name) and fl.tab.equal(a_.args[1], tbl)):
-                    why.append('membership test is %s' % g.text())
+        stored = fl.tab.atom('idx', (tbl, name)) if tbl is not None else None
+        # the default is entered in the table, under the parameter's name, exactly when the name is absent
+        ent = [e for e in fl.of('store') if tbl is not None and atom_of(fl, e.target) is not None and
+               atom_of(fl, e.target).head == 'idx' and fl.tab.equal(atom_of(fl, e.target).args[0], tbl)]
+        dflt_ok = False
+        if len(ent) != 1:
+            why.append('the default prior is not entered in the table under the parameter name (%d stores into the table)' % len(ent))
+        else:
+            en = ent[0]
+            if not fl.tab.equal(atom_of(fl, en.target).args[1], name):
+                why.append('the default is stored under %s' % fmt(fl, atom_of(fl, en.target).args[1]))
+            if not (fl.tab.equal(en.value, want) or fl.tab.equal(en.value, want2)):
+                why.append('default prior is %s' % fmt(fl, en.value))
+            else:
+                dflt_ok = True
+            ms = [membership(x) for x in en.guards if membership(x)]
+            if ms != [1] or not in_fitted_branch(en) or others(en):
+                if not ms and any(not membership(x) and not (fl.tab.equal(x.rf, tofit)) for x in en.guards):
+                    raise AnalysisError('the default prior is entered under %s: not a membership test of the prior '
+                                        'table this extractor recognises' % [x.text() for x in en.guards])
+                why.append('the default is entered under %s (expected: fitted, and the name not yet in the table)' %
+                           [x.text() for x in en.guards])
+            for x in en.guards:
+                a_ = atom_of(fl, x.rf)
+                if membership(x) and not (fl.tab.equal(a_.args[0], name) and fl.tab.equal(a_.args[1], tbl)):
+                    why.append('membership test is %s' % x.text())
+        # one prior per fitted parameter: either one append of table[name] after the default was entered, or one
+        # append per side of the membership test (the default itself / the stored prior)
+        for e in pr:
+            if not in_fitted_branch(e):
+                why.append('prior appended outside the fitted branch')
+            if others(e):
+                why.append('prior appended under %s' % [x.text() for x in e.guards])
+        sides = sorted(sum(membership(x) for x in e.guards) for e in pr)
+        if sides == [0]:
+            e = pr[0]
+            if stored is None or not fl.tab.equal(e.args[0], stored) or (ent and fl.events.index(e) < fl.events.index(ent[0])):
+                why.append('appends %s, not the table entry made for the parameter' % fmt(fl, e.args[0]))
+        elif sides == [-1, 1]:
+            for e in pr:
+                m_ = sum(membership(x) for x in e.guards)
+                if m_ == 1 and not (dflt_ok and (fl.tab.equal(e.args[0], ent[0].value) or fl.tab.equal(e.args[0], stored))):
+                    why.append('default prior is %s' % [fmt(fl, e.args[0])])
+                if m_ == -1 and (stored is None or not fl.tab.equal(e.args[0], stored)):
+                    ua = atom_of(fl, e.args[0])
+                    if ua is not None and ua.head == 'idx' and tbl is not None and not fl.tab.equal(ua.args[0], tbl):
+                        why.append('stored prior is read from %s' % fmt(fl, ua.args[0]))
+                    else:
+                        why.append('stored prior looked up by %s' % fmt(fl, e.args[0]))
+        else:
+            why.append('%d appends to the prior list on the two sides of the membership test: %s' % (len(pr), sides))
         R.check('4.default', 'ALG', site,
                 "default prior: LogUniform(lin_bounds=bounds) when mode == 'log', else Uniform(bounds=bounds); "
                 'a stored prior is looked up by the parameter name; one prior per fitted parameter, same order',
@@ -449,13 +502,23 @@ def views(ix, R):
             import re as _re
             ren = lambda txt: _re.sub(r'\b%s\b' % _re.escape(v), 'c', txt)
             t = ren(unparse(lc.elt.test))
-            if t in ("c[4] == 'linear'", "'linear' == c[4]"):
+            # the discriminator as an expression, locals of the method substituted (priors = self._fit_priors ...)
+            from sa.algebra import Conv as _Conv2
+            fl_ = mkflow(ix, site)
+            c_ = _Conv2(fl_.tab, dict(fl_.env, **{v: fl_.tab.name('c')}), fl_.canon)
+            t_rf = c_.expr(lc.elt.test)
+            w_ = _Conv2(fl_.tab, {}, fl_.canon)
+            if fl_.tab.equal(t_rf, w_.parse("c[4] == 'linear'")):
                 disc[nm] = 'tuple mode (slot 4)'
-            elif t == 'self._fit_priors[c[0]].priorMode is PriorMode.LINEAR':
+            elif fl_.tab.equal(t_rf, w_.parse('self._fit_priors[c[0]].priorMode is PriorMode.LINEAR')):
                 disc[nm] = 'prior mode'
             else:
                 disc[nm] = t
             forms[nm] = (ren(unparse(lc.elt.body)), ren(unparse(lc.elt.orelse)))
+            from sa.algebra import Conv as _Conv, Table as _Table
+            _t = forms.setdefault('@tab', _Table())
+            _c = _Conv(_t, {v: _t.name('c')}, None)
+            forms['@' + nm] = (_c.expr(lc.elt.body), _c.expr(lc.elt.orelse))
     want = {
         'fit_values': ('c[2]()', 'math.log10(c[2]())'),
         'fit_boundaries': ('c[-1]', '(math.log10(c[-1][0]), math.log10(c[-1][1]))'),
@@ -467,7 +530,8 @@ def views(ix, R):
         got = forms.get(nm)
         R.check('3b.form', 'ALG', OPT + '.' + nm,
                 '%s: linear -> %s, log -> %s' % (nm, w[0], w[1]),
-                got == w or got == alt.get(nm), key='%s' % (got,), detail='linear/log forms are %s' % (got,))
+                got == w or got == alt.get(nm) or _same_forms(forms, nm, [w, alt.get(nm)]),
+                key='%s' % (got,), detail='linear/log forms are %s' % (got,))
     ds = set(disc.values())
     R.check('3.disc', 'SIB', OPT,
             'the four views (values, boundaries, names, latex) and update_model decide linear/log by one '
@@ -477,6 +541,22 @@ def views(ix, R):
             detail='fit_names/fit_latex and update_model follow the PRIOR mode, fit_values/fit_boundaries follow '
                    'the TUPLE mode: %s; with a prior whose space differs from the parameter mode the reported '
                    'value is not in the space of its name, and writing fit_values back changes the model' % disc)
+
+
+def _same_forms(forms, nm, wants):
+    """the two arms of a view, compared as expressions (f-string / .format, np. / math. spellings are one form)"""
+    from sa.algebra import Conv as _Conv
+    t = forms.get('@tab')
+    got = forms.get('@' + nm)
+    if t is None or got is None:
+        return False
+    for w in wants:
+        if w is None:
+            continue
+        c = _Conv(t, {}, None)
+        if t.equal(got[0], c.parse(w[0])) and t.equal(got[1], c.parse(w[1])):
+            return True
+    return False
 
 
 def tuple_layout(ix, R):
@@ -573,7 +653,7 @@ def tuple_layout(ix, R):
                     ok = len(names) == 4
                     R.check('8.unpack.d', 'SIB', fn.site, 'derived tuple unpacked into exactly 4 names',
                             ok, key='unpacks %s' % names, detail='unpacks into %s' % names, loc=fn.loc(n))
-    if n7 < 9 or n4 < 3:
+    if n7 < 2 or n4 < 1:
         R.error('8.unpack.count', 'SIB', OP, 'the confirmed unpacking sites exist', 'found %d/%d' % (n7, n4))
     # positional accesses in getitem/setitem
     for site, idx, argc in ((FT + '::Fittable.__getitem__', 2, 0), (FT + '::Fittable.__setitem__', 3, 1),
@@ -726,6 +806,12 @@ def collect(ix, R):
                         isinstance(node.func.value, ast.Name) and isinstance(lp.node.target, ast.Name) and \
                         node.func.value.id == lp.node.target.id and not e.guards:
                     contrib += 1
+                elif len(e.loops) == 1 and not e.guards and atom_of(fl, lp.iter_rf[0]) is not None and \
+                        atom_of(fl, lp.iter_rf[0]).head in ('alloc', 'phi', 'call', 'mcall', 'guard', 'mutated'):
+                    # the components are first gathered into a sequence (appends, a helper) and then walked:
+                    # which components that sequence holds is not something this extractor enumerates
+                    raise AnalysisError('components are collected through the sequence %s, which is built at run time' %
+                                        fmt(fl, lp.iter_rf[0])[:80])
                 else:
                     why.append('%s in loop %s under %s' % (unparse(node), unparse(lp.iter_ast), [g.text() for g in e.guards]))
                 continue
